@@ -240,6 +240,14 @@ def double_models():
                 ("en-US", [(pts[a[0]], pts[a[1]], ("one & <two>",))]),
                 ("fr-FR", [(pts[b[0]], pts[b[1]], ("un",)), (pts[b[2]], pts[b[3]], ("deux", "\u00e9"))]),
             ])
+    # densely interleaved cues of two languages cut at different instants, straddling the 10 s and the 100 s mark (millisecond
+    # counts of different lengths next to one another)
+    for shift in (0, 90000000):
+        a_ = [(8000000, 9000000, ("Good evening.",)), (9500000, 10400000, ("Welcome & hello",)), (11000000, 12500000, ("Tonight:", "three guests"))]
+        b_ = [(8200000, 9200000, ("Bonsoir.",)), (9700000, 10100000, ("Bienvenue.",)), (10500000, 10900000, ("Ce soir :",)), (11200000, 12700000, ("trois invit\u00e9s",))]
+        sh_ = lambda cues: [(x + shift, y + shift, t) for x, y, t in cues]  # noqa: E731
+        out.append([("en-US", sh_(a_)), ("fr-FR", sh_(b_))])
+        out.append([("fr-FR", sh_(b_)), ("en-US", sh_(a_))])
     # a language that has no cue at all, before or after the one that has
     for a in itertools.combinations(range(6), 2):
         out.append([("en-US", [(pts[a[0]], pts[a[1]], ("one & <two>",))]), ("fr-FR", [])])
